@@ -4,18 +4,17 @@ import OjgVerif.Gen.AltDiff
 
 Statements are about the model of `alt/diff.go` (`Diff/Model.lean`), which the correspondence run
 ties to the Go code, for every Go map iteration order (`OrdOK ord`) and both data flavours.
-`Dev` names the five places where the code deviates or deviated from the property; the theorems
-are proved for every `D : Dev` on the inputs that the switched-on deviations cannot touch
+`Dev` names the five places where the pinned code (d4b55cf) deviated from the property; the
+theorems are proved for every `D : Dev` on the inputs that the switched-on deviations cannot touch
 (`Clear`), for trees whose integers are machine integers (`MachineTree`: -2^63 ≤ i < 2^64, the
-values `int64` and `uint64` hold — the domain of the model, not an exclusion). Four defects of the
-pinned code (d4b55cf) are repaired in the repository (`fix:` commits c0c8224, 2f372fe, 36b721b,
-23c2317); `Dev.current` — the code as it is now — keeps `uintWrap` (known finding
-C19-uint64-wrap: `asInt` wraps the top half of `uint64`): `C19_current` is the property at full
-strength with the single exclusion "the integers of both trees fit int64", `C19_full_false`
-refutes the statement without it, `full_fixed` is the statement for the code with the proposed
-fix. `source_is_current` ties `Dev.current` to the regenerated source facts (`Gen/AltDiff.lean`).
-The other `full_false_*` theorems keep one kernel-evaluated witness per deviation as the record of
-the repaired defects (they are about the model with the flag switched on). -/
+values `int64` and `uint64` hold — the domain of the model, not an exclusion). All five defects
+are repaired in the repository (`fix:` commits c0c8224, 2f372fe, 36b721b, 23c2317, d149f2d), so
+`Dev.current` — the code as it is now — has every flag off: `C19_current` / `C19_holds` are the
+property at full strength, with no exclusion. `source_is_current` ties `Dev.current` to the
+regenerated source facts (`Gen/AltDiff.lean`): a tree that loses one of the repairs breaks it. The
+`full_false_*` theorems keep one kernel-evaluated witness per deviation as the record of the
+repaired defects (they are about the model with the flag switched on);
+`C19_full_false_before_23c2317` and `C19_full_false_before_d149f2d` are the former `C19_full_false`. -/
 namespace OjgVerif.C19
 open OjgVerif OjgVerif.Diff
 
@@ -209,20 +208,21 @@ theorem C19_partial {ord : List Bytes → List Bytes} (hord : OrdOK ord) {fl : F
   ⟨diff_exact hord ha hb hc, diff_empty hord ha hb hc, compare_none _ _ _ _ _ _, fun _ => compare_mem _ _ _ _ _ _,
     match_iff ha hb hc.flt hc.gen hc.wrap⟩
 
-/-- the one exclusion left for the code as it is now: no unsigned integer above `MaxInt64` -/
-theorem clear_current (fl : Flavour) {a b : JV} (ign : List Path) (ha : Int64Tree a) (hb : Int64Tree b) :
-    Clear Dev.current fl a b ign :=
+/-- no exclusion is left for the code as it is now -/
+theorem clear_current (fl : Flavour) (a b : JV) (ign : List Path) : Clear Dev.current fl a b ign :=
   ⟨fun h => (by simp [Dev.current] at h), fun h => (by simp [Dev.current] at h),
-    fun h => (by simp [Dev.current] at h), fun h => (by simp [Dev.current] at h), fun _ => ⟨ha, hb⟩⟩
+    fun h => (by simp [Dev.current] at h), fun h => (by simp [Dev.current] at h),
+    fun h => (by simp [Dev.current] at h)⟩
 
-/-- **C19 for the code as it is now**: for every map iteration order, both data flavours, every
-ignore set and every pair of trees whose integers fit int64 (the single exclusion: `asInt` wraps a
-`uint`/`uint64` above `MaxInt64`, known finding C19-uint64-wrap): Diff returns exactly the leaf
+/-- **C19 for the code as it is now, at full strength**: for every map iteration order, both data
+flavours, every ignore set and every pair of trees whose integers are machine integers
+(-2^63 ≤ i < 2^64: the domain of the model, not an exclusion): Diff returns exactly the leaf
 differences that no ignore path covers — hence it is empty iff the trees are equivalent modulo the
 ignore paths, sound and complete —, Compare is nil iff Diff is empty and otherwise one of Diff's
-paths, and Match is the fingerprint relation. -/
+paths, and Match is the fingerprint relation. No hypothesis on ignore paths, generic roots,
+magnitudes or signedness. -/
 theorem C19_current {ord : List Bytes → List Bytes} (hord : OrdOK ord) {fl : Flavour} {a b : JV} {ign : List Path}
-    (ha : Int64Tree a) (hb : Int64Tree b) :
+    (ha : MachineTree a) (hb : MachineTree b) :
     (∀ p, p ∈ (diff Dev.current ord fl a b ign).map norm ↔ LeafDiff a b p ∧ ¬ Ignored ign p) ∧
     (diff Dev.current ord fl a b ign = [] ↔ EquivModulo ign a b) ∧
     (∀ p, p ∈ diff Dev.current ord fl a b ign →
@@ -231,18 +231,22 @@ theorem C19_current {ord : List Bytes → List Bytes} (hord : OrdOK ord) {fl : F
     (Diff.compare Dev.current ord fl a b ign = none ↔ diff Dev.current ord fl a b ign = []) ∧
     (∀ p, Diff.compare Dev.current ord fl a b ign = some p → p ∈ diff Dev.current ord fl a b ign) ∧
     (altMatch Dev.current fl a b = true ↔ FpMatch a b) :=
-  have hc : Clear Dev.current fl a b ign := clear_current fl ign ha hb
-  have ha' := machine_of_int64 ha
-  have hb' := machine_of_int64 hb
-  ⟨diff_exact hord ha' hb' hc, diff_empty hord ha' hb' hc, fun _ hp => diff_sound hord ha' hb' hc hp,
-    fun _ hq hi => diff_complete hord ha' hb' hc hq hi, compare_none _ _ _ _ _ _, fun _ => compare_mem _ _ _ _ _ _,
-    match_iff ha' hb' hc.flt hc.gen hc.wrap⟩
+  have hc : Clear Dev.current fl a b ign := clear_current fl a b ign
+  ⟨diff_exact hord ha hb hc, diff_empty hord ha hb hc, fun _ hp => diff_sound hord ha hb hc hp,
+    fun _ hq hi => diff_complete hord ha hb hc hq hi, compare_none _ _ _ _ _ _, fun _ => compare_mem _ _ _ _ _ _,
+    match_iff ha hb hc.flt hc.gen hc.wrap⟩
 
 /-- without ignore paths: Diff is empty exactly when the trees are equal up to numeric width and
 null-versus-absent members -/
 theorem C19_current_equiv {ord : List Bytes → List Bytes} (hord : OrdOK ord) {fl : Flavour} {a b : JV}
-    (ha : Int64Tree a) (hb : Int64Tree b) : diff Dev.current ord fl a b [] = [] ↔ Equiv a b :=
-  diff_empty_iff_equiv hord (machine_of_int64 ha) (machine_of_int64 hb) (clear_current fl [] ha hb)
+    (ha : MachineTree a) (hb : MachineTree b) : diff Dev.current ord fl a b [] = [] ↔ Equiv a b :=
+  diff_empty_iff_equiv hord ha hb (clear_current fl a b [])
+
+/-- the full statement holds for the code as it is now -/
+theorem C19_holds : C19_full := by
+  intro ord hord fl a b ign ha hb
+  have h := C19_current (ord := ord) hord (fl := fl) (a := a) (b := b) (ign := ign) ha hb
+  exact ⟨h.1, h.2.1, h.2.2.2.2.1, h.2.2.2.2.2.1, h.2.2.2.2.2.2⟩
 
 /-! ## the source carries the repairs, and only those -/
 
@@ -304,7 +308,7 @@ theorem w1b_machine : MachineTree w1b := (w1_all IsMachineInt (by decide)).2
 no exclusion any more -/
 example : (∀ p, p ∈ (diff Dev.current id .simple w1a w1b w1ign).map norm ↔
     LeafDiff w1a w1b p ∧ ¬ Ignored w1ign p) :=
-  (C19_current ordOK_id w1a_int64 w1b_int64).1
+  (C19_current ordOK_id w1a_machine w1b_machine).1
 
 /-- before c0c8224: `Diff(a, b, Path{0,"a"}, Path{1,"b"})` is `[[0 a]]`: the ignored `[0].a` is reported … -/
 theorem w1_model : diff ⟨true, false, false, false, false⟩ id .simple w1a w1b w1ign = [[.idx 0, .key kA]] := by
@@ -398,10 +402,9 @@ def w5a : JV := .int 9223372036854775808
 def w5b : JV := .int (-9223372036854775808)
 
 theorem w5_model : diff ⟨false, false, false, false, true⟩ id .simple w5a w5b [] = [] := by decide +kernel
-theorem w5_current : diff Dev.current id .simple w5a w5b [] = [] := by decide +kernel
 theorem w5_leaf : LeafDiff w5a w5b [] := LeafDiff.here (by decide +kernel)
 
-/-- `Diff(uint64(1<<63), int64(math.MinInt64))` is empty although the numbers differ -/
+/-- before d149f2d: `Diff(uint64(1<<63), int64(math.MinInt64))` is empty although the numbers differ -/
 theorem full_false_uintWrap : ¬ Full ⟨false, false, false, false, true⟩ := by
   intro h
   have h1 := (h id ordOK_id .simple w5a w5b [] (AllInts.int _ (by decide)) (AllInts.int _ (by decide))).1 []
@@ -409,18 +412,17 @@ theorem full_false_uintWrap : ¬ Full ⟨false, false, false, false, true⟩ := 
   have := h1.2 ⟨w5_leaf, by decide⟩
   simp at this
 
-/-- the code as it is now does not satisfy C19 at full strength (known finding C19-uint64-wrap) -/
-theorem C19_full_false : ¬ C19_full := by
-  intro h
-  have h1 := (h id ordOK_id .simple w5a w5b [] (AllInts.int _ (by decide)) (AllInts.int _ (by decide))).1 []
-  rw [w5_current] at h1
-  have := h1.2 ⟨w5_leaf, by decide⟩
-  simp at this
+/-- the former `C19_full_false`: until d149f2d `Dev.current` was `⟨false, false, false, false, true⟩`
+and the code did not satisfy C19 at full strength -/
+theorem C19_full_false_before_d149f2d : ¬ Full ⟨false, false, false, false, true⟩ := full_false_uintWrap
 
-/-- the other direction of the same defect: 2^63 as a `uint64` and as a float are reported different -/
-theorem w5_float : diff Dev.current id .simple w5a (.flt [57, 50, 50, 51, 51, 55, 50, 48, 51, 54, 56, 53, 52, 55, 55, 53, 56, 48, 56]) [] = [here]
-    ∧ diff Dev.fixed id .simple w5a (.flt [57, 50, 50, 51, 51, 55, 50, 48, 51, 54, 56, 53, 52, 55, 55, 53, 56, 48, 56]) [] = [] := by
-  constructor <;> decide +kernel
+/-- after d149f2d the pair is reported, and 2^63 as a `uint64` and as a float — reported different
+before — are equal: an instance of `C19_current` outside the int64 range -/
+theorem w5_now : diff Dev.current id .simple w5a w5b [] = [here]
+    ∧ diff Dev.current id .simple w5a (.flt [57, 50, 50, 51, 51, 55, 50, 48, 51, 54, 56, 53, 52, 55, 55, 53, 56, 48, 56]) [] = []
+    ∧ diff ⟨false, false, false, false, true⟩ id .simple w5a
+        (.flt [57, 50, 50, 51, 51, 55, 50, 48, 51, 54, 56, 53, 52, 55, 55, 53, 56, 48, 56]) [] = [here] := by
+  refine ⟨?_, ?_, ?_⟩ <;> decide +kernel
 
 /-! ## non-trivial instances of the hypotheses -/
 
